@@ -353,7 +353,7 @@ func init() {
 
 	planTable["C34"] = func(q bool) *Plan {
 		p := &Plan{Level: "model_checking", Engine: "E-sched",
-			Text:      "y.WaterMark alone, with every channel statement and every atomic operation of watermark.go as a schedule point: Begin issued in index order, Done in any order, one or two WaitForMark callers, from a fresh mark and from one that already advanced (readMark pattern); after EVERY step DoneUntil is monotone and never covers an index that was begun and not yet done; WaitForMark(j) returns only with DoneUntil >= j; at quiescence DoneUntil equals the largest fully-done index and no waiter is stranded (a stuck waiter is a deadlock of the execution). Oracle level: the C03 commit/reader interleavings, where a reader's snapshot must contain every commit at or below its read timestamp; the same race right after DB.Load (which re-seats the oracle's timestamps).",
+			Text:      "y.WaterMark alone, with every channel statement and every atomic operation of watermark.go as a schedule point: Begin issued in index order, Done in any order, one or two WaitForMark callers, from a fresh mark and from one that already advanced (readMark pattern); after EVERY step DoneUntil is monotone and never covers an index that was begun and not yet done; WaitForMark(j) returns only with DoneUntil >= j; at quiescence DoneUntil equals the largest fully-done index and no waiter is stranded (a stuck waiter is a deadlock of the execution). Oracle level: the C03 commit/reader interleavings, where a reader's snapshot must contain every commit at or below its read timestamp; the same race right after DB.Load (which re-seats the oracle's timestamps); and a committer (Commit / CommitWith) racing a DropPrefix that matches nothing, so that the commit is refused with ErrBlockedWrites after its timestamp was allocated: later readers and committers must still be released and read consistently.",
 			Note:      "Bounded model: 2-3 indices, 1-2 waiters; sequentially consistent interleavings of channel and atomic operations.",
 			Technique: "stateless model checking at channel/atomic-operation granularity (controlled scheduler, preemption-bounded DFS) with per-step invariants",
 			Rule:      "6 cases (thread layout x initial mark) x schedules up to the bound"}
@@ -361,9 +361,9 @@ func init() {
 			return Stage{Binary: "badger.fine", Scenario: "c34wm", Bound: bound, NShard: 6, BudgetS: budget, Params: prm("cases", 6)}
 		}
 		if q {
-			p.Stages = []Stage{wm(1, 30), wm(2, 45), wm(3, 40), sched("c03a", 1, 16, 25, nil), sched("c34load", 1, 16, 20, nil), sched("c34load", 2, 16, 30, nil)}
+			p.Stages = []Stage{wm(1, 30), wm(2, 45), wm(3, 40), sched("c03a", 1, 16, 25, nil), sched("c34load", 1, 16, 20, nil), sched("c34load", 2, 16, 30, nil), sched("c34blocked", 1, 16, 40, prm("cases", 2)), sched("c34blocked", 2, 16, 25, prm("cases", 2))}
 		} else {
-			p.Stages = []Stage{wm(2, 300), wm(3, 900), wm(4, 1200), sched("c03a", 2, 16, 600, nil), sched("c34load", 1, 16, 60, nil), sched("c34load", 3, 16, 300, nil)}
+			p.Stages = []Stage{wm(2, 300), wm(3, 900), wm(4, 1200), sched("c03a", 2, 16, 600, nil), sched("c34load", 1, 16, 60, nil), sched("c34load", 3, 16, 300, nil), sched("c34blocked", 3, 16, 600, prm("cases", 2))}
 		}
 		return p
 	}
